@@ -645,7 +645,25 @@ fn known_class0(i: &Instruction) -> Option<&'static str> {
             d.instructions.iter().find_map(known_class0)
         }
         Instruction::MeasureCalibrationDefinition(d) => d.instructions.iter().find_map(known_class0),
-        Instruction::CircuitDefinition(d) => d.instructions.iter().find_map(known_class0),
+        Instruction::CircuitDefinition(d) => d.instructions.iter().find_map(known_class0).or_else(|| {
+            // DEFCIRCUIT indents its body by splitting each instruction's text on '\n': a quoted string
+            // containing a newline gets the indentation inserted INSIDE the string
+            if d.instructions.iter().any(|i| {
+                !matches!(
+                    i,
+                    Instruction::CalibrationDefinition(_)
+                        | Instruction::MeasureCalibrationDefinition(_)
+                        | Instruction::CircuitDefinition(_)
+                        | Instruction::GateDefinition(_)
+                        | Instruction::FrameDefinition(_)
+                        | Instruction::WaveformDefinition(_)
+                ) && i.to_quil_or_debug().contains('\n')
+            }) {
+                Some("defcircuit-multiline-string")
+            } else {
+                None
+            }
+        }),
         Instruction::Move(m) => match m.source {
             ArithmeticOperand::LiteralReal(v) if awkward_real(v) => Some("real-literal"),
             _ => None,
